@@ -11,12 +11,21 @@ replaced/added here:
 * invariant messages, enumeration literal values, string constants and string-set constants.
 
 Every planted fragment is preceded by a unique marker word (``mk<N>q``) so that the check can
-show that the text reached a generated file.
+show that the text reached a generated file. The texts are kept as *templates* with placeholders:
+``render(ts, neutral=True)`` gives the same model with every fragment replaced by ``~`` (used to
+tell text-caused failures from structural ones).
+
+Two modes: ``single`` — all description fragments of a model come from one fragment class and one
+form (text, literal, emphasis, url, text-at-end, constraint-id) and all value fragments from one class,
+so that a failure can be attributed precisely; ``mixed`` — everything together, minus the classes
+given by ``avoid`` (the triggers of already known defects).
 """
 from __future__ import annotations
 
+import copy
 import dataclasses
-from typing import Any, Dict, List, Optional, Tuple
+import re
+from typing import Any, Callable, Dict, List, Optional, Tuple
 
 from hypothesis import strategies as st
 
@@ -39,28 +48,70 @@ DOC_FRAGMENTS = [
 ]
 
 # the ones that most often matter at the very end of a description
-DOC_END_FRAGMENTS = ['"', "'", "\\", "*/", '""', '"""', "'''", "\\\\", "/", "*", "`", "<", "&", "{", "\\u", "??/"]
+DOC_END_FRAGMENTS = ['"', "'", "\\", "*/", '""', '"""', "'''", "\\\\", "/", "*", "`", "<", "&", "{", "\\u", "??/",
+                     "}", "@", "$", "${", ">", "%", "\\n", "x" * 90]
 
 # fragments that may stand in an inline literal (``...``): no backtick; no leading/trailing blank
 LITERAL_FRAGMENTS = [f for f in DOC_FRAGMENTS if "`" not in f and f.strip() == f and f != "\u00a0"] + [
-    'a"b', "x*/y", "C:\\users\\x", "\\d+", "@code", "a}b", "a{b", "<x>", "&x;", '"""', "'''", "*/", "\\",
+    'a"b', "x*/y", "C:\\users\\x", "\\d+", "@code", "a}b", "a{b", "<x>", "&x;",
 ]
+
+URL_FRAGMENTS = ["a*/b", "x?y=1&z=2", "q'r", "p(1)", "~u", "a%20b", "e/f//g", "h$i", "k@l", "m;n", "o=p+q", "r,s"]
+
+# suffixes of constraint identifiers
+CONSTRAINT_ID_FRAGMENTS = ["*/b", '"', "&y", "<x>", "\\", "'", "${x}", "@x", "{}", "-1.x"]
 
 # texts of string literals (messages, enumeration values, constants); control characters and the
 # new-line-like characters are the domain of C19 and are left out here
 LIT_FRAGMENTS = [
-    '"', "'", '""', '"""', "'''", "\\", "\\\\", '\\"', "\\'", "\\n", "\\t", "\\u0041", "\\u", "\\x4", "\\x41", "\\0", "\\",
+    '"', "'", '""', '"""', "'''", "\\", "\\\\", '\\"', "\\'", "\\n", "\\t", "\\u0041", "\\u", "\\x4", "\\x41", "\\0",
     "*/", "/*", "//", "<", ">", "&", "&amp;", "]]>", "-->", "</", "${x}", "${", "#{x}", "{", "}", "{{", "}}", "{0}",
     "`", "%s", "%d", "%", "%%", "$", '$"', '@"', '"@', "#", "@", "?", "??/", "\u00e9", "\U0001F600", "\u00a0",
     "x" * 70, " ", "  ",
 ]
 
-URL_FRAGMENTS = ["a*/b", "x?y=1&z=2", "q'r", "p(1)", "~u", "a%20b", "e/f//g", "h$i", "k@l", "m;n", "o=p+q", "r,s"]
-
 SAFE_WORDS = ["Represent", "some", "thing", "of", "the", "model", "value", "with", "items",
               "and", "a", "reference", "for", "testing", "purposes", "only", "an", "element"]
 
-CONSTRAINT_IDS = ["AASd-{n}", "AASc-3a-{n}", "C{n}", "c-{n}.x", "a*/b{n}", 'q"{n}', "x&y{n}", "p<{n}>", "e\\{n}", "k'{n}"]
+DOC_FORMS = ["text", "literal", "emphasis", "url", "text-at-end", "constraint-id"]
+
+NEUTRAL = "~"
+
+
+def fragment_class(fragment: str, form: str) -> str:
+    """Coarse class of a fragment: what it could terminate or open in some target language."""
+    f = fragment
+    if form == "url":
+        return "url"
+    if "*/" in f:
+        return "comment-close"
+    if "\\u" in f:
+        return "backslash-u"
+    if "\\" in f or "??/" in f:
+        return "backslash"
+    if '"' in f:
+        return "double-quote"
+    if "'" in f:
+        return "single-quote"
+    if "`" in f or "${" in f:
+        return "template"
+    if "<" in f or "&" in f or ">" in f:
+        return "markup"
+    if "@" in f:
+        return "at"
+    if "{" in f or "}" in f:
+        return "brace"
+    if "/" in f:
+        return "slash"
+    if f.strip() == "":
+        return "blank"
+    if len(f) >= 60:
+        return "long-word"
+    return "other"
+
+
+DOC_CLASSES = sorted({fragment_class(f, "text") for f in DOC_FRAGMENTS})
+VALUE_CLASSES = sorted({fragment_class(f, "value") for f in LIT_FRAGMENTS})
 
 
 def rst_escape(fragment: str) -> str:
@@ -91,31 +142,56 @@ def py_docstring_source(value: str) -> str:
     return "".join(out)
 
 
+# placeholders: <ESC>idx<END> -> rst-escaped fragment, <RAW>idx<END> -> fragment verbatim
+_ESC, _RAW, _END = "\ue000", "\ue002", "\ue001"
+_PLACEHOLDER_RE = re.compile("([\ue000\ue002])(\\d+)\ue001")
+
+
 @dataclasses.dataclass
 class Plant:
     marker: str
     fragment: str
-    where: str  # e.g. class-doc, property-doc, invariant-message, enum-value, ...
-    form: str  # text | literal | emphasis | url | constraint-id | value
+    where: str  # module-doc, class-doc, ..., invariant-message, enumeration-literal-value, ...
+    form: str  # text | literal | emphasis | url | text-at-end | constraint-id | value
+
+
+def materialize(template: str, plants: List[Plant], neutral: bool) -> str:
+    def sub(m: Any) -> str:
+        frag = NEUTRAL if neutral else plants[int(m.group(2))].fragment
+        return rst_escape(frag) if m.group(1) == _ESC else frag
+
+    return _PLACEHOLDER_RE.sub(sub, template)
 
 
 class Planter:
-    """Hand out markers and remember what was planted."""
+    """Hand out markers and placeholders; remember what was planted."""
 
-    def __init__(self, avoid: Optional[Any] = None) -> None:
+    def __init__(self, avoid: Optional[Callable[[str, str, str], bool]] = None, doc_class: Optional[str] = None,
+                 doc_form: Optional[str] = None, value_class: Optional[str] = None) -> None:
         self.plants = []  # type: List[Plant]
         self.avoid = avoid  # predicate (fragment, where, form) -> bool: do not generate
+        self.doc_class = doc_class
+        self.doc_form = doc_form
+        self.value_class = value_class
 
-    def pick(self, draw: Any, pool: List[str], where: str, form: str) -> str:
-        """Draw a fragment of ``pool`` that is not to be avoided."""
+    def pool(self, pool: List[str], where: str, form: str) -> List[str]:
+        out = pool
+        cls = self.value_class if form == "value" else self.doc_class
+        if cls is not None:
+            out = [f for f in out if fragment_class(f, form) == cls]
         if self.avoid is not None:
-            pool = [f for f in pool if not self.avoid(f, where, form)] or ["~"]
-        return draw(st.sampled_from(pool))
+            out = [f for f in out if not self.avoid(f, where, form)]
+        return out
 
-    def plant(self, fragment: str, where: str, form: str) -> str:
-        marker = f"mk{len(self.plants)}q"
+    def form_allowed(self, form: str) -> bool:
+        return self.doc_form is None or self.doc_form == form
+
+    def plant(self, fragment: str, where: str, form: str) -> Tuple[str, str, str]:
+        """(marker, placeholder of the escaped fragment, placeholder of the raw fragment)."""
+        idx = len(self.plants)
+        marker = f"mk{idx}q"
         self.plants.append(Plant(marker, fragment, where, form))
-        return marker
+        return marker, f"{_ESC}{idx}{_END}", f"{_RAW}{idx}{_END}"
 
 
 @dataclasses.dataclass
@@ -128,7 +204,7 @@ class DocCtx:
     qualified_attrs: List[str] = dataclasses.field(default_factory=list)  # :attr:`Cls.x`
     consts: List[str] = dataclasses.field(default_factory=list)
     args: List[str] = dataclasses.field(default_factory=list)
-    constraint_ids: List[str] = dataclasses.field(default_factory=list)  # defined so far (global)
+    constraint_ids: List[Tuple[str, str]] = dataclasses.field(default_factory=list)  # (field form, role form)
     allow_constraints: bool = False
     returns: bool = False
 
@@ -137,36 +213,7 @@ def _word(draw: Any) -> str:
     return draw(st.sampled_from(SAFE_WORDS))
 
 
-def _inline(draw: Any, ctx: DocCtx, planter: Planter, adversarial: float) -> str:
-    """One inline piece of RST (never starts or ends with a blank)."""
-    r = draw(st.floats(0, 1))
-    if r >= adversarial:
-        return _word(draw)
-    kind = draw(st.sampled_from(["text", "text", "text", "text", "literal", "literal", "emphasis", "role", "role", "url"]))
-    if kind == "text":
-        frag = planter.pick(draw, DOC_FRAGMENTS, ctx.where, "text")
-        marker = planter.plant(frag, ctx.where, "text")
-        glue = draw(st.sampled_from([" ", " ", ""]))
-        tail = draw(st.sampled_from(["", "", "end"]))
-        return f"{marker}{glue}{rst_escape(frag)}{tail}"
-    if kind == "literal":
-        frag = planter.pick(draw, LITERAL_FRAGMENTS, ctx.where, "literal")
-        marker = planter.plant(frag, ctx.where, "literal")
-        style = draw(st.integers(0, 2))
-        if style == 0:
-            return f"{marker} ``{frag}``"
-        if style == 1:
-            return f"``{marker}{frag}``"
-        return f"``{frag}{marker}``"
-    if kind == "emphasis":
-        frag = planter.pick(draw, [f for f in DOC_FRAGMENTS if f.strip() == f], ctx.where, "emphasis")
-        marker = planter.plant(frag, ctx.where, "emphasis")
-        return f"*{marker} {rst_escape(frag)}*"
-    if kind == "url":
-        frag = planter.pick(draw, URL_FRAGMENTS, ctx.where, "url")
-        marker = planter.plant(frag, ctx.where, "url")
-        return f"https://example.com/{marker}/{frag}"
-    # role
+def _role(draw: Any, ctx: DocCtx) -> str:
     choices = []  # type: List[str]
     if ctx.classes:
         choices.append("class")
@@ -178,7 +225,7 @@ def _inline(draw: Any, ctx: DocCtx, planter: Planter, adversarial: float) -> str
         choices.append("const")
     if ctx.args:
         choices.append("paramref")
-    if ctx.constraint_ids and "\\" not in ctx.constraint_ids[-1]:
+    if ctx.constraint_ids and ctx.constraint_ids[-1][1] != "":
         choices.append("constraintref")
     if not choices:
         return _word(draw)
@@ -194,8 +241,53 @@ def _inline(draw: Any, ctx: DocCtx, planter: Planter, adversarial: float) -> str
         return f":const:`{prefix}{draw(st.sampled_from(ctx.consts))}`"
     if which == "paramref":
         return f":paramref:`{draw(st.sampled_from(ctx.args))}`"
-    # the role content is taken verbatim (no escapes are interpreted in the reference)
-    return f":constraintref:`{ctx.constraint_ids[-1]}`"
+    # the role content is taken verbatim by the front end (no escapes are interpreted in the reference)
+    return f":constraintref:`{ctx.constraint_ids[-1][1]}`"
+
+
+def _inline(draw: Any, ctx: DocCtx, planter: Planter, adversarial: float) -> str:
+    """One inline piece of RST (never starts or ends with a blank)."""
+    r = draw(st.floats(0, 1))
+    if r >= adversarial:
+        return _word(draw)
+    kind = draw(st.sampled_from(["text", "text", "text", "text", "literal", "literal", "emphasis", "role", "role", "url"]))
+    if kind == "role":
+        return _role(draw, ctx)
+    if not planter.form_allowed(kind):
+        if planter.doc_form in ("text", "literal", "emphasis", "url"):
+            kind = planter.doc_form
+        else:
+            return _word(draw)
+    if kind == "text":
+        pool = planter.pool(DOC_FRAGMENTS, ctx.where, "text")
+        if not pool:
+            return _word(draw)
+        marker, esc, _ = planter.plant(draw(st.sampled_from(pool)), ctx.where, "text")
+        glue = draw(st.sampled_from([" ", " ", ""]))
+        tail = draw(st.sampled_from(["", "", "end"]))
+        return f"{marker}{glue}{esc}{tail}"
+    if kind == "literal":
+        pool = planter.pool(LITERAL_FRAGMENTS, ctx.where, "literal")
+        if not pool:
+            return _word(draw)
+        marker, _, raw = planter.plant(draw(st.sampled_from(pool)), ctx.where, "literal")
+        style = draw(st.integers(0, 2))
+        if style == 0:
+            return f"{marker} ``{raw}``"
+        if style == 1:
+            return f"``{marker}{raw}``"
+        return f"``{raw}{marker}``"
+    if kind == "emphasis":
+        pool = planter.pool([f for f in DOC_FRAGMENTS if f.strip() == f], ctx.where, "emphasis")
+        if not pool:
+            return _word(draw)
+        marker, esc, _ = planter.plant(draw(st.sampled_from(pool)), ctx.where, "emphasis")
+        return f"*{marker} {esc}*"
+    pool = planter.pool(URL_FRAGMENTS, ctx.where, "url")
+    if not pool:
+        return _word(draw)
+    marker, _, raw = planter.plant(draw(st.sampled_from(pool)), ctx.where, "url")
+    return f"https://example.com/{marker}/{raw}"
 
 
 def _paragraph(draw: Any, ctx: DocCtx, planter: Planter, adversarial: float, end_fragment: bool) -> List[str]:
@@ -208,11 +300,11 @@ def _paragraph(draw: Any, ctx: DocCtx, planter: Planter, adversarial: float, end
         for _ in range(n):
             parts.append(_inline(draw, ctx, planter, adversarial))
         lines.append(" ".join(parts))
-    if end_fragment:
-        frag = planter.pick(draw, DOC_END_FRAGMENTS, ctx.where, "text-at-end")
-        marker = planter.plant(frag, ctx.where, "text-at-end")
+    pool = planter.pool(DOC_END_FRAGMENTS, ctx.where, "text-at-end") if (end_fragment and planter.form_allowed("text-at-end")) else []
+    if pool:
+        marker, esc, _ = planter.plant(draw(st.sampled_from(pool)), ctx.where, "text-at-end")
         glue = draw(st.sampled_from([" ", ""]))
-        lines[-1] += f" {marker}{glue}{rst_escape(frag)}"
+        lines[-1] += f" {marker}{glue}{esc}"
     elif draw(st.booleans()):
         lines[-1] += "."
     return lines
@@ -223,15 +315,17 @@ def _indent(lines: List[str], prefix: str) -> List[str]:
 
 
 def description(draw: Any, ctx: DocCtx, planter: Planter, adversarial: float = 0.45) -> str:
-    """The RST source of one description."""
+    """The RST source (a template with placeholders) of one description."""
     n_remarks = draw(st.sampled_from([0, 0, 0, 1, 1, 2, 3]))
     n_constraints = draw(st.sampled_from([0, 0, 0, 1, 2])) if ctx.allow_constraints else 0
+    if ctx.allow_constraints and planter.doc_form == "constraint-id":
+        n_constraints = max(1, n_constraints)
     n_params = len(ctx.args) if (ctx.args and draw(st.booleans())) else 0
     with_returns = ctx.returns and draw(st.booleans())
 
-    n_blocks = 1 + n_remarks + n_constraints + n_params + (1 if with_returns else 0)
+    n_blocks = 1 + n_remarks + (1 if (n_constraints + n_params + (1 if with_returns else 0)) > 0 else 0)
     # where the description ends decides what the "end fragment" terminates
-    end_here = draw(st.floats(0, 1)) < 0.5
+    end_here = draw(st.floats(0, 1)) < (0.9 if planter.doc_form == "text-at-end" else 0.4)
     blocks = []  # type: List[List[str]]
 
     def is_last() -> bool:
@@ -262,14 +356,18 @@ def description(draw: Any, ctx: DocCtx, planter: Planter, adversarial: float = 0
     fi = 0
     for _ in range(n_constraints):
         fi += 1
-        pattern = planter.pick(draw, CONSTRAINT_IDS[:4] * 3 + CONSTRAINT_IDS[4:], ctx.where, "constraint-id")
-        if pattern in CONSTRAINT_IDS[4:]:
-            cid = pattern.format(n=planter.plant(pattern, ctx.where, "constraint-id"))
+        pool = planter.pool(CONSTRAINT_ID_FRAGMENTS, ctx.where, "constraint-id") if planter.form_allowed("constraint-id") else []
+        if pool and (planter.doc_form == "constraint-id" or draw(st.integers(0, 3)) == 0):
+            frag = draw(st.sampled_from(pool))
+            marker, esc, raw = planter.plant(frag, ctx.where, "constraint-id")
+            # a reference is possible only when the raw form survives as role content
+            cid = (f"C{marker}{esc}", f"C{marker}{raw}" if "\\" not in frag and "`" not in frag and "<" not in frag else "")
         else:
-            cid = pattern.format(n=len(ctx.constraint_ids) + 100)
+            plain = draw(st.sampled_from(["AASd-{n}", "AASc-3a-{n}", "C{n}", "c-{n}.x"])).format(n=len(ctx.constraint_ids) + 100)
+            cid = (rst_escape(plain), plain)
         body = _paragraph(draw, ctx, planter, adversarial, end_here and fi == n_fields)
         ctx.constraint_ids.append(cid)
-        field_lines.append(f":constraint {rst_escape(cid)}:")
+        field_lines.append(f":constraint {cid[0]}:")
         field_lines.extend(_indent(body, "    "))
         if draw(st.integers(0, 4)) == 0:
             field_lines.append("")
@@ -297,18 +395,16 @@ def description(draw: Any, ctx: DocCtx, planter: Planter, adversarial: float = 0
 
 
 def literal_text(draw: Any, planter: Planter, where: str, words: bool = True) -> str:
-    """Text of a message / value: words and fragments, carrying a marker (thus unique)."""
-    pool = LIT_FRAGMENTS
-    if planter.avoid is not None:
-        pool = [f for f in pool if not planter.avoid(f, where, "value")] or ["~"]
+    """Template of a message / value: words and fragments, carrying a marker (thus unique)."""
+    pool = planter.pool(LIT_FRAGMENTS, where, "value") or [NEUTRAL]
     frags = draw(st.lists(st.sampled_from(pool), min_size=1, max_size=3))
     parts = []  # type: List[str]
     if words and draw(st.booleans()):
         parts.append(draw(st.sampled_from(["Value", "The item", "It"])) + " ")
     for i, frag in enumerate(frags):
-        marker = planter.plant(frag, where, "value")
+        marker, _, raw = planter.plant(frag, where, "value")
         glue = draw(st.sampled_from([" ", ""]))
-        parts.append(f"{marker}{glue}{frag}")
+        parts.append(f"{marker}{glue}{raw}")
         if i + 1 < len(frags):
             parts.append(draw(st.sampled_from([" ", " must be ", ""])))
     if draw(st.integers(0, 2)) == 0:
@@ -323,14 +419,19 @@ def literal_text(draw: Any, planter: Planter, where: str, words: bool = True) ->
 
 @dataclasses.dataclass
 class TextSpec:
-    spec: mmgen.Spec
-    literal_docs: Dict[str, Dict[str, str]]  # enumeration -> literal -> RST source
+    spec: mmgen.Spec  # all texts are templates
+    literal_docs: Dict[str, Dict[str, str]]  # enumeration -> literal -> RST template
     plants: List[Plant]
+    mode: str = "mixed"  # mixed | single
+    doc_class: Optional[str] = None
+    doc_form: Optional[str] = None
+    value_class: Optional[str] = None
     avoided_known: bool = False
 
 
 @st.composite
-def text_specs(draw: Any, max_classes: int = 4, adversarial: float = 0.45, avoid: Optional[Any] = None) -> TextSpec:
+def text_specs(draw: Any, max_classes: int = 4, adversarial: float = 0.45,
+               avoid: Optional[Callable[[str, str, str], bool]] = None, single: bool = False) -> TextSpec:
     opts = mmgen.Opts(
         max_classes=draw(st.integers(1, max_classes)),
         max_props=draw(st.integers(0, 3)),
@@ -341,7 +442,19 @@ def text_specs(draw: Any, max_classes: int = 4, adversarial: float = 0.45, avoid
         max_invs=2,
     )
     spec = draw(mmgen.specs(opts))
-    planter = Planter(avoid)
+    doc_class = doc_form = value_class = None
+    if single:
+        doc_form = draw(st.sampled_from(DOC_FORMS[:5] * 2 + DOC_FORMS[5:]))
+        if doc_form == "url":
+            doc_class = "url"
+        elif doc_form == "constraint-id":
+            doc_class = draw(st.sampled_from(sorted({fragment_class(f, doc_form) for f in CONSTRAINT_ID_FRAGMENTS})))
+        elif doc_form == "text-at-end":
+            doc_class = draw(st.sampled_from(sorted({fragment_class(f, doc_form) for f in DOC_END_FRAGMENTS})))
+        else:
+            doc_class = draw(st.sampled_from(DOC_CLASSES))
+        value_class = draw(st.sampled_from(VALUE_CLASSES))
+    planter = Planter(avoid, doc_class, doc_form, value_class)
     p_doc = draw(st.sampled_from([0.5, 0.8, 1.0]))
 
     def want() -> bool:
@@ -351,7 +464,7 @@ def text_specs(draw: Any, max_classes: int = 4, adversarial: float = 0.45, avoid
     qualified = [f"{c.name}.{p.name}" for c in spec.classes for p in c.props]
     qualified += [f"{e.name}.{n}" for e in spec.enums for n, _ in e.literals]
     const_names = [c.name for c in spec.consts]
-    constraint_ids = []  # type: List[str]
+    constraint_ids = []  # type: List[Tuple[str, str]]
 
     def ctx(where: str, own: Optional[List[str]] = None, allow_constraints: bool = False,
             args: Optional[List[str]] = None, returns: bool = False) -> DocCtx:
@@ -360,21 +473,18 @@ def text_specs(draw: Any, max_classes: int = 4, adversarial: float = 0.45, avoid
                       allow_constraints=allow_constraints, returns=returns)
 
     if want():
-        spec.module_doc = py_docstring_source(
-            description(draw, ctx("module-doc", allow_constraints=True), planter, adversarial))
+        spec.module_doc = description(draw, ctx("module-doc", allow_constraints=True), planter, adversarial)
 
     literal_docs = {}  # type: Dict[str, Dict[str, str]]
     for e in spec.enums:
         own = [n for n, _ in e.literals]
         if want():
-            e.doc = py_docstring_source(
-                description(draw, ctx("enumeration-doc", own, allow_constraints=True), planter, adversarial))
+            e.doc = description(draw, ctx("enumeration-doc", own, allow_constraints=True), planter, adversarial)
         literal_docs[e.name] = {}
         new_literals = []
         for n, v in e.literals:
             if want():
-                literal_docs[e.name][n] = py_docstring_source(
-                    description(draw, ctx("enumeration-literal-doc", own), planter, adversarial))
+                literal_docs[e.name][n] = description(draw, ctx("enumeration-literal-doc", own), planter, adversarial)
             if draw(st.booleans()):
                 v = literal_text(draw, planter, "enumeration-literal-value", words=False)
             new_literals.append((n, v))
@@ -382,8 +492,7 @@ def text_specs(draw: Any, max_classes: int = 4, adversarial: float = 0.45, avoid
 
     for cp in spec.cps:
         if want():
-            cp.doc = py_docstring_source(
-                description(draw, ctx("constrained-primitive-doc", allow_constraints=True), planter, adversarial))
+            cp.doc = description(draw, ctx("constrained-primitive-doc", allow_constraints=True), planter, adversarial)
         for inv in cp.invs:
             if draw(st.booleans()):
                 inv.desc = literal_text(draw, planter, "invariant-message")
@@ -391,19 +500,16 @@ def text_specs(draw: Any, max_classes: int = 4, adversarial: float = 0.45, avoid
     for c in spec.classes:
         own = [p.name for p in c.props]
         if want():
-            c.doc = py_docstring_source(
-                description(draw, ctx("class-doc", own, allow_constraints=True), planter, adversarial))
+            c.doc = description(draw, ctx("class-doc", own, allow_constraints=True), planter, adversarial)
         for p in c.props:
             if want():
-                p.doc = py_docstring_source(
-                    description(draw, ctx("property-doc", own, allow_constraints=True), planter, adversarial))
+                p.doc = description(draw, ctx("property-doc", own, allow_constraints=True), planter, adversarial)
         for inv in c.invs:
             if draw(st.booleans()):
                 inv.desc = literal_text(draw, planter, "invariant-message")
 
     for k in spec.consts:
         if want():
-            # rendered with pystr(): the value itself, not source text
             k.doc = description(draw, ctx("constant-doc"), planter, adversarial)
         if k.kind == "str" and draw(st.booleans()):
             k.value = literal_text(draw, planter, "string-constant")
@@ -415,10 +521,10 @@ def text_specs(draw: Any, max_classes: int = 4, adversarial: float = 0.45, avoid
     for f in spec.fns:
         if want():
             args = [a for a, _ in f.args]
-            f.doc = py_docstring_source(
-                description(draw, ctx("function-doc", args=args, returns=True), planter, adversarial))
+            f.doc = description(draw, ctx("function-doc", args=args, returns=True), planter, adversarial)
 
-    return TextSpec(spec, literal_docs, planter.plants, avoid is not None)
+    return TextSpec(spec, literal_docs, planter.plants, "single" if single else "mixed", doc_class, doc_form,
+                    value_class, avoid is not None)
 
 
 # ---------------------------------------------------------------------------
@@ -439,8 +545,42 @@ def render_enum(e: mmgen.Enm, docs: Dict[str, str]) -> List[str]:
     return out
 
 
-def render(ts: TextSpec) -> str:
-    spec = ts.spec
+def render(ts: TextSpec, neutral: bool = False) -> str:
+    """The meta-model text; ``neutral`` replaces every planted fragment by ``~``."""
+    spec = copy.deepcopy(ts.spec)
+    plants = ts.plants
+
+    def doc(t: Optional[str]) -> Optional[str]:
+        return None if t is None else py_docstring_source(materialize(t, plants, neutral))
+
+    def val(t: Any) -> Any:
+        return materialize(t, plants, neutral) if isinstance(t, str) else t
+
+    spec.module_doc = doc(spec.module_doc)
+    literal_docs = {}  # type: Dict[str, Dict[str, str]]
+    for e in spec.enums:
+        e.doc = doc(e.doc)
+        e.literals = [(n, val(v)) for n, v in e.literals]
+        literal_docs[e.name] = {n: doc(t) or "" for n, t in ts.literal_docs.get(e.name, {}).items()}
+    for cp in spec.cps:
+        cp.doc = doc(cp.doc)
+        for inv in cp.invs:
+            inv.desc = val(inv.desc)
+    for c in spec.classes:
+        c.doc = doc(c.doc)
+        for p in c.props:
+            p.doc = doc(p.doc)
+        for inv in c.invs:
+            inv.desc = val(inv.desc)
+    for k in spec.consts:
+        k.doc = val(k.doc)  # rendered through pystr(): the value itself, not source text
+        if k.kind == "str":
+            k.value = val(k.value)
+        elif k.kind == "set_str":
+            k.value = [val(v) for v in k.value]
+    for f in spec.fns:
+        f.doc = doc(f.doc)
+
     lines = []  # type: List[str]
     if spec.module_doc is not None:
         lines.extend(mmgen._doc(spec.module_doc, ""))
@@ -448,7 +588,7 @@ def render(ts: TextSpec) -> str:
     lines.append(mmgen.HEADER)
     for kind, name in spec.order:
         if kind == "enum":
-            lines.extend(render_enum(spec.enum(name), ts.literal_docs.get(name, {})))
+            lines.extend(render_enum(spec.enum(name), literal_docs.get(name, {})))
         elif kind == "cp":
             lines.extend(mmgen.render_cp(spec.cp(name)))
         elif kind == "class":
